@@ -1,4 +1,5 @@
 # C10 - concurrent_hash_map is a linearizable map with per-element reader/writer locks.
+#   protocol spec: spec/cont/HashMapRehash.tla (mask race re-check, lazy rehash of the child bucket from its parent under the bucket locks)
 #   abstract spec: spec/cont/MapAbs.tla; histories (insert/find/erase/count, accessor hold intervals, element destruction) of the real map
 #   with identity / constant / low-bit-colliding hash functions and 1 initial bucket are validated by TLC (TraceMap.tla)
 import os, vlib, contlib
@@ -14,5 +15,6 @@ SCEN = [
 
 def run(res, tier, seed):
     thorough = tier != 'quick'
-    # abstract model sanity (design level): the MapAbs machine itself under TLC with 2 keys / 2 threads is exercised by the trace runs;
+    vlib.model_check(res, contlib.SD, 'MCHashMapRehash', 'HashMapRehash_PA.cfg')
+    vlib.model_check(res, contlib.SD, 'MCHashMapRehash', 'HashMapRehash_PB.cfg')
     contlib.run_scenarios(res, 'C10', 'TraceMap', SCEN, 400 if not thorough else 6000, seed, 'concurrent_hash_map')
